@@ -9,21 +9,23 @@ From CJ Require Import Common.Base C19.Model.
    decisions on the probe addresses / names, and the generations of the selector *)
 Record obs := mkObs {
   o_parse : N; o_stage : N; o_hk : bool;
-  o_cov : list bool; o_loop : bool; o_dom : list bool; o_ph : list bool; o_gens : list N }.
+  o_cov : list bool; o_loop : bool; o_dom : list bool; o_ph : list bool; o_gens : list N;
+  o_pipe : N   (* cap(ingestChan) + 1, 0 = nil channel *) }.
 
 Definition probes (n : N) : list N := map N.of_nat (seq 0 (N.to_nat n)).
 
-Definition decisions (p : policy) (np : N) (parse stage : N) (hk : bool) (gens : list N) : obs :=
+Definition decisions (p : policy) (np : N) (parse stage : N) (hk : bool) (gens : list N) (pipe : N) : obs :=
   mkObs parse stage hk (map (covert_blocked p) (probes np)) (loop_blocked p)
-        (map (domain_blocked p) (probes np)) (map (phantom_blocked p) (probes np)) gens.
+        (map (domain_blocked p) (probes np)) (map (phantom_blocked p) (probes np)) gens pipe.
 
-Definition empty_obs (parse stage : N) : obs := mkObs parse stage true [] false [] [] [].
+Definition empty_obs (parse stage : N) : obs := mkObs parse stage true [] false [] [] [] 0.
+Definition pipe_code (m : manager) : N := match m_pipe m with None => 0 | Some c => c + 1 end.
 
 Definition is_ok {A} (r : res A) : bool := match r with Ok _ => true | _ => false end.
 Definition parse_code {A} (r : res A) : N := match r with Ok _ => 0 | Err _ => 1 | Panic => 2 end.
 
 Definition obs_of_mgr (m : manager) (np parse stage : N) : obs :=
-  decisions (m_policy m) np parse stage (is_ok (housekeeping m)) (m_sel m).
+  decisions (m_policy m) np parse stage (is_ok (housekeeping m)) (m_sel m) (pipe_code m).
 
 (* start-up *)
 Definition start_obs (f : file) (s : subfile) (np : N) : obs * option manager :=
@@ -32,10 +34,12 @@ Definition start_obs (f : file) (s : subfile) (np : N) : obs * option manager :=
   | Err _ => (empty_obs 1 3, None)
   | Ok c =>
       match new_manager c s with
-      | Ok m => (obs_of_mgr m np 0 0, Some m)
-      | Err EFatalLiveness => (decisions (c_policy c) np 0 1 true [], None)
-      | Err _ => (decisions (c_policy c) np 0 2 true [], None)
-      | Panic => (decisions (c_policy c) np 0 9 true [], None)
+      | Ok m =>   (* printers on the fresh manager, then the ingest pipeline is launched and they run again *)
+          let m1 := launch m in
+          (decisions (m_policy m1) np 0 0 (is_ok (housekeeping m) && is_ok (housekeeping m1)) (m_sel m1) (pipe_code m1), Some m1)
+      | Err EFatalLiveness => (decisions (c_policy c) np 0 1 true [] 0, None)
+      | Err _ => (decisions (c_policy c) np 0 2 true [] 0, None)
+      | Panic => (decisions (c_policy c) np 0 9 true [] 0, None)
       end
   end.
 
@@ -62,7 +66,7 @@ Definition obs_eqb (a b : obs) : bool :=
   (o_parse a =? o_parse b) && (o_stage a =? o_stage b) && Bool.eqb (o_hk a) (o_hk b) &&
   list_eqb Bool.eqb (o_cov a) (o_cov b) && Bool.eqb (o_loop a) (o_loop b) &&
   list_eqb Bool.eqb (o_dom a) (o_dom b) && list_eqb Bool.eqb (o_ph a) (o_ph b) &&
-  list_eqb N.eqb (o_gens a) (o_gens b).
+  list_eqb N.eqb (o_gens a) (o_gens b) && (o_pipe a =? o_pipe b).
 
 Definition chk (c : list (file * subfile) * N * list obs) : bool :=
   let '(steps, np, o) := c in list_eqb obs_eqb (model_obs steps np) o.
